@@ -131,11 +131,16 @@ def run_native(prop, tier, seed, extra=None):
     env = dict(os.environ)
     env['PYTHONWARNINGS'] = 'ignore'
     env.pop('PYTHONPATH', None)
-    try:
-        r = subprocess.run(cmd, capture_output=True, text=True, timeout=int(os.environ.get('NATIVE_TIMEOUT', 3000)),
-                           env=env, cwd=ROOT)
-    except subprocess.TimeoutExpired:
-        return {'error': 'native harness timed out'}
+    for attempt in range(3):
+        try:
+            r = subprocess.run(cmd, capture_output=True, text=True, timeout=int(os.environ.get('NATIVE_TIMEOUT', 3000)),
+                               env=env, cwd=ROOT)
+        except subprocess.TimeoutExpired:
+            return {'error': 'native harness timed out'}
+        if r.returncode >= 0 or os.path.exists(out_path):
+            break
+        # killed by a signal (a crash inside a native library, e.g. HDF5): not a verdict about the property -- run it again
+        print(f'NOTE native harness died with signal {-r.returncode}, attempt {attempt + 1}/3', file=sys.stderr)
     if not os.path.exists(out_path):
         return {'error': f'native harness failed: rc={r.returncode}\n{r.stdout[-2000:]}\n{r.stderr[-3000:]}'}
     rep = json.load(open(out_path))
